@@ -180,7 +180,7 @@ func genC14(t *rapid.T) c14Case {
 	c := c14Case{}
 	c.Key = rapid.SampledFrom(c14KeyNames).Draw(t, "key")
 	c.KeyIdx = rapid.IntRange(0, 4).Draw(t, "kidx")
-	c.Op = rapid.SampledFrom([]string{"encdec", "encdec", "add", "add", "mult", "mult", "fresh", "unit",
+	c.Op = rapid.SampledFrom([]string{"encdec", "encdec", "add", "add", "mult", "mult", "fresh", "unit", "steer-x",
 		"refuse-m", "refuse-k", "refuse-c-mult", "refuse-c-add", "refuse-c-dec", "refuse-gcd"}).Draw(t, "op")
 	c.Cls = rapid.SampledFrom([]string{"0", "1", "N-1", "rand", "rand", "wrap", "small"}).Draw(t, "cls")
 	c.A = hx(drawBigBits(t, "a", 4200))
@@ -300,6 +300,28 @@ func runC14(c c14Case) (out ev.Outcome) {
 		want.Mod(want, N2)
 		if want.Cmp(cr) != 0 || new(big.Int).GCD(nil, nil, x, N).Cmp(one) != 0 || x.Sign() <= 0 || x.Cmp(N) >= 0 {
 			return fail("enc-formula", "ciphertext is not (N+1)^m x^N with the returned unit x")
+		}
+	case "steer-x":
+		// the encryption randomness must be a unit modulo N: the first draw of the random source is forced to a
+		// non-unit (0, P, Q, a multiple of P); the library has to draw again, and the result must be as good as ever
+		k := (N.BitLen() + 7) / 8
+		mult := new(big.Int).Mod(c.B.Big(), sk.Q)
+		for _, x0 := range []*big.Int{big.NewInt(0), sk.P, sk.Q, new(big.Int).Mod(mul(sk.P, add(mult, 2)), N)} {
+			rd := &prefixReader{prefix: x0.FillBytes(make([]byte, k)), rest: rand.Reader}
+			ct, x, e := pk.EncryptAndReturnRandomness(rd, m1)
+			if e != nil {
+				return fail("encrypt-refused", "EncryptAndReturnRandomness refused m in [0,N): %v", e)
+			}
+			if x == nil || x.Sign() <= 0 || x.Cmp(N) >= 0 || new(big.Int).GCD(nil, nil, x, N).Cmp(one) != 0 {
+				return fail("not-unit", "encryption randomness %v is not a unit modulo N (first draw of the source was the non-unit %v)", x, x0)
+			}
+			if !isUnit(ct) {
+				return fail("not-unit", "ciphertext is not a unit modulo N^2 (first draw of the source was the non-unit %v)", x0)
+			}
+			got, e := dec(ct)
+			if e != nil || got.Cmp(m1) != 0 {
+				return fail("roundtrip", "Dec(Enc(m)) = %v err=%v, want %v (first draw of the source was a non-unit)", got, e, m1)
+			}
 		}
 	case "add":
 		c1, _ := pk.Encrypt(rand.Reader, m1)
